@@ -95,7 +95,7 @@ def _render(case, limits: dict):
     log.update(max=0, assigns=0, in_partial=0, contexts=[])
     src = gg.to_source(case["main"])
     data = gd.decode(case["data"])
-    o = oc.outcome_of(lambda: env.from_string(src).render(**data))
+    o = oc.render(case, lambda: env.from_string(src), **data)
     for ctx in log["contexts"]:
         # what the top-level context holds when the render is over (a finished partial's locals are dead by then and
         # never coexisted with what its ancestors hold now: partial contexts are measured at their assigns and reads)
